@@ -5,17 +5,20 @@ import json
 from lib import common
 
 MC_CFG = {
-    # property -> (quick cfg, thorough cfg)
-    "C01": ("MC_Search_q.cfg", "MC_Search.cfg"),
-    "C02": ("MC_Search_cost_q.cfg", "MC_Search_cost.cfg"),
-    "C03": ("MC_Search_delay_q.cfg", "MC_Search_delay.cfg"),
-    "C04": ("MC_Search_front_q.cfg", "MC_Search_front.cfg"),
-    "C05": ("MC_Search_q.cfg", "MC_Search.cfg"),
-    "C10": ("MC_Search_limits_q.cfg", "MC_Search_limits.cfg"),
+    # property -> (quick cfgs, thorough cfgs)
+    "C01": (["MC_Search_q.cfg"], ["MC_Search.cfg"]),
+    "C02": (["MC_Search_cost_q.cfg", "MC_Search_units_q.cfg"], ["MC_Search_cost.cfg", "MC_Search_units.cfg"]),
+    "C03": (["MC_Search_delay_q.cfg", "MC_Search_units_q.cfg"], ["MC_Search_delay.cfg", "MC_Search_units.cfg"]),
+    "C04": (["MC_Search_front_q.cfg"], ["MC_Search_front.cfg"]),
+    "C05": (["MC_Search_q.cfg"], ["MC_Search.cfg"]),
+    "C10": (["MC_Search_limits_q.cfg", "MC_Search_rt_q.cfg"], ["MC_Search_limits.cfg", "MC_Search_rt.cfg"]),
 }
 
 
-GEN_CFG = {k: (q.replace("MC_", "Gen_"), t.replace("MC_", "Gen_")) for k, (q, t) in MC_CFG.items()}
+GEN_CFG = {k: ([c.replace("MC_", "Gen_") for c in q], [c.replace("MC_", "Gen_") for c in t]) for k, (q, t) in MC_CFG.items()}
+# state-feature units for the cost factors of the model's unit configurations (SearchScn!CuOf)
+CU_UNITS = {(1000, 1, 1000, 1): ("meters", "seconds"), (1, 1, 50, 3): ("kilometers", "minutes"),
+            (1000, 1, 5, 18): ("meters", "hours"), (1, 1, 1000, 1): ("kilometers", "seconds")}
 VEH = {"height": [3, "meters"], "width": [8, "feet"], "total_length": [400, "inches"], "trailer_length": [5, "meters"],
        "total_weight": [10, "tons"], "number_of_axles": 3}
 
@@ -27,13 +30,19 @@ def from_tlc(scn):
     h = scn["h"]
     astar = any(x != 0 for x in h)
     okv = scn["ok"]
+    sd, st = CU_UNITS[tuple(scn["cu"])]
     return {
+        "rtf": scn["rtf"], "rtx": scn["rtx"],
         "profile": "exact", "nv": scn["nv"], "xy": [[i, 0] for i in range(scn["nv"])], "E": scn["E"], "hd": scn["hd"],
         "src": scn["src"], "dst": scn["dst"], "dir": scn["dir"], "alg": "astar" if astar else "dijkstra", "wf": 1000 if astar else 0,
         "wf_src": "alg", "model": "speed" if ne > 0 else "distance", "wd": scn["wd"], "wt": scn["wt"], "rd": scn["rd"], "rt": scn["rt"], "sur": scn["sur"],
         "acc": scn["acc"], "delay": scn["delay"], "bad": [list(p) for p in scn["bad"]], "force_turn_model": bool(scn["bad"]),
         "itl": scn["itl"], "szl": scn["szl"], "init": scn["init"],
-        "units": {"distance": "meters", "time": "seconds", "speed": "mps", "delay": "seconds"},
+        # the traversal model computes in other units than the state features are declared in
+        "units": {"distance": "meters", "time": "seconds", "speed": "mps", "delay": "seconds", "state_distance": sd, "state_time": st}
+                 if (sd, st) == ("meters", "seconds") else
+                 {"distance": "meters" if sd == "kilometers" else "kilometers", "time": "milliseconds", "speed": "kph", "delay": "minutes",
+                  "state_distance": sd, "state_time": st},
         "cls": [0 if o else 1 for o in okv] if not all(okv) else [], "allowed_on": not all(okv), "allowed": [0] if not all(okv) else [],
         "allowed_query": [0] if not all(okv) else None,
         # the estimate is wf x wd x rd x hscript: h is given in milli-cost, so it only applies to pure distance cost
@@ -46,14 +55,24 @@ def from_tlc(scn):
 def tlc_scenarios(ctx, want):
     """Scenarios enumerated by TLC from the property's own model configuration (spec -> impl direction)."""
     q, t = GEN_CFG[ctx.pid]
-    raw = ctx.gen("MC_Search", q if ctx.tier == "quick" else t, timeout=3000)
-    # the scripted heuristic is exact only for distance-only cost; keep the others with h = 0
-    raw = [r for r in raw if (r["wt"] == 0 and r["wd"] * r["rd"] >= 1) or all(x == 0 for x in r["h"])]
-    ctx.extra["tlc_exported_scenarios"] = len(raw)
-    if len(raw) > want:
-        step = len(raw) // want
-        raw = raw[ctx.seed % step::step]
-    return [from_tlc(r) for r in raw]
+    cfgs = q if ctx.tier == "quick" else t
+    res = []
+    ctx.extra["tlc_exported_scenarios"] = 0
+    # number of scenarios of each bound (measured once; only used to choose the stride of the in-model sample)
+    sizes = {"Gen_Search_q.cfg": 151620, "Gen_Search_cost_q.cfg": 430000, "Gen_Search_delay_q.cfg": 944736, "Gen_Search_front_q.cfg": 1000000,
+             "Gen_Search_limits_q.cfg": 646380, "Gen_Search_rt_q.cfg": 574560, "Gen_Search_units_q.cfg": 500000}
+    for cfg in cfgs:
+        n = max(1, want // len(cfgs))
+        stride = max(1, sizes.get(cfg, 3000000) // (2 * n))      # aim at twice the wanted number, then thin out
+        raw = ctx.gen("MC_Search", cfg, timeout=6000, env={"STRIDE": str(stride), "OFFSET": str(ctx.seed % stride)})
+        # the scripted heuristic is exact only for distance-only cost in base units; keep the others with h = 0
+        raw = [r for r in raw if (r["wt"] == 0 and r["wd"] * r["rd"] >= 1 and r["cu"] == [1000, 1, 1000, 1]) or all(x == 0 for x in r["h"])]
+        ctx.extra["tlc_exported_scenarios"] += len(raw)
+        if len(raw) > n:
+            step = len(raw) // n
+            raw = raw[ctx.seed % step::step]
+        res += [from_tlc(r) for r in raw]
+    return res
 
 
 def pinned(ctx, check):
@@ -77,7 +96,7 @@ def nontrivial_search(scn, evs, pid):
     if pid == "C03":
         return scn.get("acc") == "turn" or scn.get("wt", 0) > 0
     if pid == "C10":
-        return scn.get("itl", -1) >= 0 or scn.get("szl", -1) >= 0
+        return scn.get("itl", -1) >= 0 or scn.get("szl", -1) >= 0 or scn.get("rtf", 0) > 0
     if pid == "C05":
         return evs[-1].get("outcome") in ("nopath", "ok")
     return True
@@ -88,7 +107,8 @@ def run_family(ctx, n_quick, n_thorough, maxv_quick=9, maxv_thorough=14):
     quick = ctx.tier == "quick"
     ctx.build()
     mc_q, mc_t = MC_CFG[pid]
-    ctx.mc("MC_Search", mc_q if quick else mc_t, timeout=3000)
+    for cfg in (mc_q if quick else mc_t):
+        ctx.mc("MC_Search", cfg, timeout=6000)
     scns = []
     # pinned scenarios of known findings (open: must be explained by the named deviation; fixed: must pass)
     pins = pinned(ctx, "search")
